@@ -104,7 +104,14 @@ theorem attrGet_notLive (w : World) (o : Obj) (a : Attr) (h : w.alive = false) :
     | some vs =>
       cases hl : lookup vs a.id with
       | none => simp [hl, attrLoadOut, over, h]
-      | some s => cases s <;> simp [hl]
+      | some s =>
+        cases s with
+        | none => simp [hl]
+        | coll sd => simp [hl]
+        | val v =>
+          simp only [hl]
+          repeat' split
+          all_goals simp_all [over]
 
 theorem attrGetDescr_facts (w : World) (i : Nat) (o : Obj) (a : Attr) (ho : w.objs[i]? = some o) :
     (attrGetDescr w i o a).world.core = w.core ∧ (attrGetDescr w i o a).world.alive = w.alive ∧ (attrGetDescr w i o a).stmts = [] := by
